@@ -28,6 +28,9 @@ def loop_arraybase_post_init():
         items = frame.lookup('items')
         param = I.getattr_(me, 'param')
         size = fixed_item_size(param)
+        if isinstance(items, V.SObj) and issubclass(items.cls, ArrayBase) and isinstance(items.f.get('_items'), SSeq):
+            # iterating a vector goes through __len__/__getitem__, i.e. over its _items
+            items = items.f['_items']
         if size is None or not isinstance(items, SSeq):
             raise E.Unsupported('ArrayBase constructor over a symbolic number of variable-size items (%s)'
                                 % type(param).__name__)
